@@ -214,7 +214,7 @@ func mustJSON(v any) json.RawMessage {
 
 func firstFatalLine(log string) string {
 	for _, ln := range strings.Split(log, "\n") {
-		if strings.HasPrefix(ln, "fatal error:") || strings.HasPrefix(ln, "panic:") || strings.HasPrefix(ln, "VERIF-HANG") || strings.HasPrefix(ln, "runtime: ") {
+		if strings.HasPrefix(ln, "fatal error:") || strings.HasPrefix(ln, "panic:") || strings.HasPrefix(ln, "VERIF-HANG") || strings.HasPrefix(ln, "VERIF-MEMORY") || strings.HasPrefix(ln, "runtime: ") {
 			return Trunc(ln, 200)
 		}
 	}
@@ -225,6 +225,8 @@ func classifyDeath(log string) (clause, site string) {
 	clause = "process-death"
 	if strings.Contains(log, "VERIF-HANG") {
 		clause = "hang"
+	} else if strings.Contains(log, "VERIF-MEMORY") {
+		clause = "memory"
 	} else if strings.Contains(log, "stack overflow") {
 		clause = "stack-overflow"
 	} else if strings.Contains(log, "concurrent map") {
